@@ -102,7 +102,7 @@ theorem read_wordsMem (base : Nat) (ws : List Nat) (i : Nat) (hi : i < ws.length
       256 * ((wordsMem base ws).byte (8 * i + 3) + 256 * ((wordsMem base ws).byte (8 * i + 4) +
       256 * ((wordsMem base ws).byte (8 * i + 5) + 256 * ((wordsMem base ws).byte (8 * i + 6) +
       256 * ((wordsMem base ws).byte (8 * i + 7) + 256 * 0))))))) := rfl
-  rw [hle, e0, e1, e2, e3, e4, e5, e6, e7]
+  rw [Mem.wordAt_le _ _ _ rfl, hle, e0, e1, e2, e3, e4, e5, e6, e7]
   exact digits8 v hw
 
 theorem read_wordsMem_isSome (base : Nat) (ws : List Nat) (i : Nat) (hi : i < ws.length) :
